@@ -413,7 +413,14 @@ class Search:
                             pre_p, dev, post_p, norm = rec['delta']
                             prev = self.delta.get((pre_p, dev))
                             if prev is not None and prev != (post_p, norm):
-                                raise HarnessError('%s: the per-client projection is not a function: %s gives two different results' % (self.label, proto.ev_str(dev)))
+                                # the same client, alone, in the same per-client state gets two different treatments for the same event: something
+                                # outside its own record (earlier traffic) decides - that is the interference C07 forbids (never seen on the pinned tree)
+                                tag = 'C07.history-dependence'
+                                self.tag_counts[tag] = self.tag_counts.get(tag, 0) + 1
+                                if self.tag_counts[tag] <= 5:
+                                    self.violations.append((tag, 'event %s in one and the same per-client state is answered %r after one history and %r after another' % (proto.ev_str(dev), list(prev[1]), list(norm)),
+                                                            sid, rec['ev'], rec['cev'], rec.get('out')))
+                                continue
                             self.delta[(pre_p, dev)] = (post_p, norm)
                         for tag, text in rec['V']:
                             self.tag_counts[tag] = self.tag_counts.get(tag, 0) + 1
